@@ -221,7 +221,7 @@ void dec_run(dec_spec *s, const lzma_allocator *a, const uint8_t *in, size_t in_
 		if (cb != NULL && cb->n) { wi = cb->p; wn = cb->n; }
 		const bool abandon = ((wh >> 9) & 1) && wn > 2;
 		if (abandon) wn = 1 + (size_t)((wh >> 16) % (wn - 1));
-		if (s->warm_mon != NULL && s->warm_fail_at > 0) s->warm_mon->fail_at = (int64_t)s->warm_mon->n_alloc + s->warm_fail_at;
+		if (s->warm_mon != NULL && s->warm_fail_at > 0) alloc_mon_fail_nth_from_now(s->warm_mon, (unsigned)s->warm_fail_at);
 		const lzma_ret wret = dec_init(&strm, s, a, wi, wn);
 		s->memlimit = keep_limit;
 		if (wret == LZMA_OK) {
